@@ -599,6 +599,33 @@ pub fn check_encode(u: &Universe, st: &State, last: &str, extra: Option<&ExtraCh
         let what = v.iter().map(|(f, w)| format!("{f}: {w}")).collect::<Vec<_>>().join(" || ");
         return (vec![(format!("{}/explicit-import-of-named-interface-under-another-name", u.prop), what)], classes);
     }
+    // An exported (or explicitly imported) function whose type mentions a resource handle is
+    // only valid when that resource is itself exported (imported) under a name: wac accepts the
+    // export and produces a component the validator rejects. One cause, one fingerprint.
+    if v.iter().any(|(f, _)| f.contains("ValidationFailure[func-not-valid-to-be-used-as-export]")) {
+        let handle_func = |n: &u32| match &st.model.nodes[n].item {
+            crate::refgraph::RItem::Ty(Ty::Opaque(k, text)) => k == "func" && (text.contains("own<") || text.contains("borrow<")),
+            _ => false,
+        };
+        if st.model.exports.values().any(handle_func) {
+            let what = v.iter().map(|(f, w)| format!("{f}: {w}")).collect::<Vec<_>>().join(" || ");
+            return (vec![(format!("{}/export-of-a-function-over-a-resource-that-is-not-exported", u.prop), what)], classes);
+        }
+    }
+    // A function over a provider's resource passed as an argument while the consumer's own
+    // import of that resource is bound elsewhere (or left implicit): whether the function fits
+    // depends on an argument that is set separately; wac accepts each step and the result is
+    // rejected by the validator ("resource types are not the same"). One cause.
+    if v.iter().any(|(_, w)| w.contains("resource types are not the same")) {
+        let handle_arg = st.model.args.values().any(|n| match &st.model.nodes[n].item {
+            crate::refgraph::RItem::Ty(Ty::Opaque(k, text)) => k == "func" && (text.contains("own<") || text.contains("borrow<")),
+            _ => false,
+        });
+        if handle_arg {
+            let what = v.iter().map(|(f, w)| format!("{f}: {w}")).collect::<Vec<_>>().join(" || ");
+            return (vec![(format!("{}/argument-function-over-a-resource-that-is-bound-separately", u.prop), what)], classes);
+        }
+    }
     // Component-model values are linear: a value-kinded node that is not consumed exactly
     // once makes the output invalid. One cause, one fingerprint.
     if v.iter().any(|(f, _)| f.contains("ValidationFailure[value-")) {
